@@ -31,8 +31,9 @@ PROP = dict(
         "to the next value that satisfies it (label start_adjusted)",
         "links open a forwarded packet once: OpenCircuits is never called for a circuit that already has a "
         "keystone, and outgoing/incoming keys inside one OpenCircuits batch are distinct",
-        "an incoming link replays an add only until it has durably processed a response for it "
-        "(forwarding-package ack is atomic with the commitment that carries the response)",
+        "incoming-link forwarding-package bookkeeping is modelled: every forwarded ADD carries a unique "
+        "sourceRef; an ADD is acked only by committing a response whose sourceRef equals it; a restarted "
+        "incoming link replays exactly its un-acked ADDs",
         "a remote peer answers only HTLCs that reached a commitment (outgoing id below the committed index)",
         "write failures are injected as a failing bbolt transaction of CommitCircuits/OpenCircuits/"
         "DeleteCircuits/NewCircuitMap; TrimOpenCircuits write failures are not injected (no documented "
